@@ -53,6 +53,9 @@ pub struct Case {
     pub base: Base,
     pub add: Vec<(u8, u16)>,
     pub new_versions: [u32; 3],
+    /// drive the update through the `tuftool update` binary instead of the library API
+    #[serde(default)]
+    pub via_cli: bool,
 }
 
 const NAMES: [&str; 8] = ["a.txt", "b.bin", "dir/c.txt", "deep/er/d.dat", "UPPER.TXT", "dots..name", "tilde~1", "plus+sign"];
@@ -263,25 +266,65 @@ pub fn prop_with(case: &Case, known_snapshot: bool) -> Outcome {
     std::fs::create_dir_all(&input).unwrap();
     let mut added: BTreeMap<String, (u64, String)> = BTreeMap::new();
     let nv = case.new_versions;
-    let res: Result<(), String> = crate::rt::block_on(async {
-        let mut ed = RepositoryEditor::from_repo(&disk.root_path, old_repo).await.map_err(|e| format!("from_repo: {e}"))?;
-        ed.targets_version(NonZeroU64::new(nv[0].max(1) as u64).unwrap()).map_err(|e| e.to_string())?;
-        ed.targets_expires(edit::expiry(400)).map_err(|e| e.to_string())?;
-        ed.snapshot_version(NonZeroU64::new(nv[1].max(1) as u64).unwrap()).snapshot_expires(edit::expiry(401));
-        ed.timestamp_version(NonZeroU64::new(nv[2].max(1) as u64).unwrap()).timestamp_expires(edit::expiry(402));
-        for (i, (n, size)) in case.add.iter().enumerate() {
-            let name = format!("added/{}", NAMES[*n as usize % NAMES.len()]);
-            let data = edit::content(*size % 2000, 100 + i as u8);
-            let f = input.join(format!("add-{i}"));
-            std::fs::write(&f, &data).unwrap();
-            let t = Target::from_path(&f).await.map_err(|e| e.to_string())?;
-            ed.add_target(name.as_str(), t).map_err(|e| format!("add_target: {e}"))?;
-            added.insert(name, (data.len() as u64, crate::cjson::sha256_hex(&data)));
-        }
-        let signed = ed.sign(&edit::key_sources(&disk.sign_keys)).await.map_err(|e| format!("sign: {e}"))?;
-        signed.write(&new_meta).await.map_err(|e| format!("write: {e}"))?;
-        Ok(())
-    });
+    let res: Result<(), String> = if case.via_cli {
+        o.label("via:tuftool-update");
+        drop(old_repo);
+        (|| -> Result<(), String> {
+            let bin = super::c20::tuftool()?;
+            // `--add-targets` takes a directory and names targets after the files in it
+            let add_dir = input.join("flat");
+            std::fs::create_dir_all(&add_dir).unwrap();
+            for (i, (n, size)) in case.add.iter().enumerate() {
+                let name = format!("added-{}-{}", i, NAMES[*n as usize % NAMES.len()].replace('/', "_"));
+                let data = edit::content(*size % 2000, 100 + i as u8);
+                std::fs::write(add_dir.join(&name), &data).unwrap();
+                added.insert(name, (data.len() as u64, crate::cjson::sha256_hex(&data)));
+            }
+            let mut cmd = std::process::Command::new(bin);
+            cmd.arg("update")
+                .arg("--root").arg(&disk.root_path)
+                .arg("--metadata-url").arg(url::Url::from_directory_path(&disk.metadata_dir).unwrap().as_str())
+                .arg("--outdir").arg(out.path())
+                .arg("--targets-version").arg(nv[0].max(1).to_string())
+                .arg("--targets-expires").arg(crate::rt::rfc3339(edit::expiry(400)))
+                .arg("--snapshot-version").arg(nv[1].max(1).to_string())
+                .arg("--snapshot-expires").arg(crate::rt::rfc3339(edit::expiry(401)))
+                .arg("--timestamp-version").arg(nv[2].max(1).to_string())
+                .arg("--timestamp-expires").arg(crate::rt::rfc3339(edit::expiry(402)));
+            if !case.add.is_empty() {
+                cmd.arg("--add-targets").arg(&add_dir);
+            }
+            for k in &disk.sign_keys {
+                cmd.arg("-k").arg(&crate::keys::key(*k).priv_path);
+            }
+            cmd.env("RUST_BACKTRACE", "0");
+            let outp = cmd.output().map_err(|e| format!("cannot run tuftool: {e}"))?;
+            if !outp.status.success() {
+                return Err(format!("tuftool update exited {:?}: {}", outp.status.code(), String::from_utf8_lossy(&outp.stderr).lines().take(4).collect::<Vec<_>>().join(" | ")));
+            }
+            Ok(())
+        })()
+    } else {
+        crate::rt::block_on(async {
+            let mut ed = RepositoryEditor::from_repo(&disk.root_path, old_repo).await.map_err(|e| format!("from_repo: {e}"))?;
+            ed.targets_version(NonZeroU64::new(nv[0].max(1) as u64).unwrap()).map_err(|e| e.to_string())?;
+            ed.targets_expires(edit::expiry(400)).map_err(|e| e.to_string())?;
+            ed.snapshot_version(NonZeroU64::new(nv[1].max(1) as u64).unwrap()).snapshot_expires(edit::expiry(401));
+            ed.timestamp_version(NonZeroU64::new(nv[2].max(1) as u64).unwrap()).timestamp_expires(edit::expiry(402));
+            for (i, (n, size)) in case.add.iter().enumerate() {
+                let name = format!("added/{}", NAMES[*n as usize % NAMES.len()]);
+                let data = edit::content(*size % 2000, 100 + i as u8);
+                let f = input.join(format!("add-{i}"));
+                std::fs::write(&f, &data).unwrap();
+                let t = Target::from_path(&f).await.map_err(|e| e.to_string())?;
+                ed.add_target(name.as_str(), t).map_err(|e| format!("add_target: {e}"))?;
+                added.insert(name, (data.len() as u64, crate::cjson::sha256_hex(&data)));
+            }
+            let signed = ed.sign(&edit::key_sources(&disk.sign_keys)).await.map_err(|e| format!("sign: {e}"))?;
+            signed.write(&new_meta).await.map_err(|e| format!("write: {e}"))?;
+            Ok(())
+        })
+    };
     if let Err(e) = res {
         o.fail(format!("update of a loadable repository with the right keys failed: {e}"));
         return o;
@@ -424,12 +467,19 @@ fn forge_strategy() -> impl Strategy<Value = ForgeRepo> {
 }
 
 fn case_strategy() -> impl Strategy<Value = Case> {
+    (case_strategy_lib(), prop::bool::weighted(0.2)).prop_map(|(mut c, cli)| {
+        c.via_cli = cli;
+        c
+    })
+}
+
+fn case_strategy_lib() -> impl Strategy<Value = Case> {
     (
         prop_oneof![3 => forge_strategy().prop_map(Base::Forged), 1 => edit::program(15).prop_map(Base::Edited)],
         prop::collection::vec((0u8..8, 0u16..2000), 0..4),
         [50u32..5000, 50u32..5000, 50u32..5000],
     )
-        .prop_map(|(base, add, new_versions)| Case { base, add, new_versions })
+        .prop_map(|(base, add, new_versions)| Case { base, add, new_versions, via_cli: false })
 }
 
 pub fn check(ctx: &Ctx) -> Vec<PartReport> {
@@ -450,6 +500,7 @@ pub fn check(ctx: &Ctx) -> Vec<PartReport> {
                 ("unknown-members:targets", n as u64 / 5),
                 ("custom-data", n as u64 / 5),
                 ("base:edited", n as u64 / 10),
+                ("via:tuftool-update", n as u64 / 10),
             ],
         },
     )]
@@ -473,7 +524,7 @@ pub fn probes(_ctx: &Ctx) -> Vec<super::Probe> {
         entry_extra: false,
         versions: [1, 1, 1],
     };
-    let o = prop_with(&Case { base: Base::Forged(f), add: vec![], new_versions: [60, 60, 60] }, false);
+    let o = prop_with(&Case { base: Base::Forged(f), add: vec![], new_versions: [60, 60, 60], via_cli: false }, false);
     vec![super::Probe {
         key: KF_SNAPSHOT_EXTRA.into(),
         what: "RepositoryEditor::build_snapshot computes the carried-over unknown members and never assigns them: unknown top-level members of snapshot.json are dropped by any pass through the editor".into(),
